@@ -19,6 +19,7 @@ mod apis9;
 mod apis10;
 mod apis11;
 mod apis12;
+mod apis13;
 
 fn main() {
     std::panic::set_hook(Box::new(|_| {}));
